@@ -178,7 +178,16 @@ def run_harness_family(fam, tier, seed, tag):
     with open(path, "w") as f:
         p = subprocess.run([KH, fam, tier, str(seed)], stdout=f, stderr=subprocess.PIPE, text=True, timeout=7200)
     if p.returncode != 0:
-        raise RuntimeError(f"kharness {fam} exited {p.returncode}: {p.stderr[-800:]}")
+        # the harness calls the real code in-process: a crash (abort, segfault, a panic that escaped
+        # catch_unwind) is behaviour of the implementation under test, not of the machinery
+        last = ""
+        try:
+            with open(path) as f:
+                for line in f:
+                    last = line.split("\t", 1)[0]
+        except OSError:
+            pass
+        raise HarnessCrash(fam, p.returncode, last, p.stderr[-600:])
     return path
 
 
@@ -194,6 +203,12 @@ def run_driver(tsv_path):
     if p.returncode != 0:
         raise RuntimeError(f"kdriver exited {p.returncode}: {p.stderr[-800:]}")
     return outp
+
+
+class HarnessCrash(Exception):
+    def __init__(self, fam, rc, last, err):
+        super().__init__(f"kharness {fam} exited {rc} after request '{last}': {err}")
+        self.fam, self.rc, self.last, self.err = fam, rc, last, err
 
 
 TRIVIAL = {"none", "v:_:0", "panic", "f", "[]", "err", "-", ""}
@@ -338,6 +353,7 @@ def main(argv):
     # 2. rebuild the implementation side from /repo as it is now
     cmp_ = Comparison()
     extra = {}
+    crashes = []
     harness_fail = None
     if not os.path.exists(DRIVER):
         broken.append("kdriver was not built")
@@ -357,6 +373,8 @@ def main(argv):
                         tsv = mod.generate(ctx)
                     model = run_driver(tsv)
                     cmp_.feed(name, tsv, model, only)
+                except HarnessCrash as e:
+                    crashes.append({"family": e.fam, "exit": e.rc, "last_request_before_crash": e.last, "stderr": e.err})
                 except Exception as e:  # a source that cannot run is a broken check, not a violation
                     broken.append(f"source {name}: {type(e).__name__}: {str(e)[:1500]}")
 
@@ -373,6 +391,11 @@ def main(argv):
                          "proof obligations that no longer check: " + "; ".join(po["failed"])[:800])
         violations.append((p, " no-failing-input-found"))
 
+    if crashes:
+        p = write_replay(pid, tier, seed, "crash", crashes,
+                         "the harness process running the real code crashed (abort / segfault / escaped panic); "
+                         "the request after last_request_before_crash of that family is the failing input")
+        violations.append((p, ""))
     new_viol = []
     for rec in cmp_.impl_ne_oracle:
         k = match_known(known, rec)
@@ -398,7 +421,7 @@ def main(argv):
         broken.append(f"spec != oracle on {len(cmp_.spec_ne_oracle)} requests (specification misdescribes std), first: {cmp_.spec_ne_oracle[0]}")
     if cmp_.bad_op:
         broken.append(f"bad-op on {len(cmp_.bad_op)} requests, first: {cmp_.bad_op[0]}")
-    if not replay and cmp_.evaluations == 0 and not harness_fail:
+    if not replay and cmp_.evaluations == 0 and not harness_fail and not crashes:
         broken.append("no requests were evaluated")
 
     # 6. evidence
